@@ -1022,7 +1022,11 @@ pub fn section(input: ParseString) -> ParseResult<Section> {
 
   let mut new_input = input.clone();
 
+  #[cfg(mech_verif)]
+  let verif_id = crate::verif_hooks::enter("section");
   loop {
+    #[cfg(mech_verif)]
+    crate::verif_hooks::progress(verif_id, "section", new_input.cursor, new_input.graphemes.len());
     // Stop if EOF reached
     if new_input.cursor >= new_input.graphemes.len() {
       //println!("EOF reached while parsing section");
@@ -1098,7 +1102,11 @@ pub fn body(input: ParseString) -> ParseResult<Body> {
   let (mut input, _) = whitespace0(input)?;
   let mut sections = vec![];
   let mut new_input = input.clone();
+  #[cfg(mech_verif)]
+  let verif_id = crate::verif_hooks::enter("body");
   loop {
+    #[cfg(mech_verif)]
+    crate::verif_hooks::progress(verif_id, "body", new_input.cursor, new_input.graphemes.len());
     if new_input.cursor >= new_input.graphemes.len() {
       break;
     }
